@@ -3,7 +3,20 @@ import random
 from fractions import Fraction as Fr
 
 from .. import core
+from . import big
 from .c04 import hexl
+
+
+def _bw(d, n):
+    t = "cnl::wide_integer<%d,%s>" % (d, NARROW_[n])
+    return ("big wide<%d,%s> [+-*/%%<]" % (d, n), t, t, "+-*/%<", 0)
+
+
+NARROW_ = {"i8": "signed char", "u8": "unsigned char", "i16": "short", "u16": "unsigned short", "i32": "int", "u32": "unsigned", "i64": "std::int64_t", "u64": "std::uint64_t"}
+# Karatsuba-sized storage (>= 129 limbs: 136 and 272 limbs), 2*odd limb counts just below the threshold (126 limbs), odd limb counts above it (129, 151),
+# and a 64-bit-limb type above the threshold
+BIGQ = 6
+BIG = [_bw(1087, "i8"), _bw(1008, "u8"), _bw(4351, "i32"), _bw(1032, "u8"), _bw(2016, "u16"), _bw(1207, "i8"), _bw(2175, "i16"), _bw(2176, "u8"), _bw(8703, "i64"), _bw(3000, "i16"), _bw(5000, "u32")]
 
 NARROW = {"i8": "signed char", "u8": "unsigned char", "i16": "short", "u16": "unsigned short", "i32": "int", "u32": "unsigned", "i64": "std::int64_t", "u64": "std::uint64_t"}
 CORE = [(65, "i32"), (100, "u32"), (127, "i32"), (128, "i32"), (128, "u32"), (129, "i8"), (200, "i32"), (256, "u32"), (255, "i16"), (300, "i64"), (130, "u16"), (512, "u64"),
@@ -208,7 +221,13 @@ def make_jobs(tier, seed, only=None, prefix="c10"):
 def run(tier, seed, only=None):
     res = core.Result("C10", tier, seed)
     jobs, ks = make_jobs(tier, seed, only)
-    core.build_and_run(jobs, "C10")
+    bigjobs = big.make_jobs("c10", BIG if tier == "thorough" or only else BIG[:BIGQ], tier, seed, ["g-san"] if tier == "quick" else ["g-san", "c-san"], only, wrap=True)
+    core.build_and_run(jobs + bigjobs, "C10")
+    for j in bigjobs:
+        res.absorb(j)
+        j.post(res, j)
+        if j.died:
+            res.inconclusive.append("binary %s[%s] died outside a guarded case (rc=%s)" % (j.name, j.config, j.rc))
     for j in jobs:
         res.absorb(j)
         judge(res, j)
@@ -216,7 +235,7 @@ def run(tier, seed, only=None):
             res.inconclusive.append("binary %s[%s] died outside a guarded case (rc=%s)" % (j.name, j.config, j.rc))
     res.extra["types"] = [k[0] for k in ks]
     res.extra["not_instantiable"] = ["unary ~ on a multi-limb wide_integer", "same-width signed vs unsigned wide_integer comparison (ambiguous)"]
-    return res.finish(RULE, assumptions=["N is the storage width W (make_uintwide rounds Digits+sign up to whole limbs); numeric_limits follow the declared Digits",
+    return res.finish(RULE + big.RULE, assumptions=["N is the storage width W (make_uintwide rounds Digits+sign up to whole limbs); numeric_limits follow the declared Digits",
                                          "to-floating is judged as faithful (one of the two bracketing floats), from-floating as truncation toward zero; results outside the representable range are out of domain",
                                          "offline checker: python integers; limbs are read and written directly"])
 
